@@ -235,7 +235,11 @@ def gen_batch(rng, i):
         else:
             frames.append(dict(kind="blobs", pixels=_texture(rng, side, "blobs", 255)))
     mode = rng.choice(["plain", "plain", "frame_no", "frame_no", "mixed"])
-    fnos = rng.sample(range(0, 60), nfr)
+    fnos = rng.sample(range(1, 60), nfr)
+    if rng.random() < 0.6:
+        fnos[rng.randrange(1, nfr)] = 0       # frame number 0, and not in first position
+    elif rng.random() < 0.3:
+        fnos[0] = 0
     if mode == "plain":
         fnos = [None] * nfr
     elif mode == "mixed":
